@@ -8,7 +8,7 @@ namespace SoyVerif.Model.Lex
 open SoyVerif SoyVerif.Model
 
 /-- `lexNegative`, called by lexInsideTag (`l0`) right after reading '-' -/
-theorem lexNegative_sat {n : Int} {l0 l : Lexer} (hn : l.len = n) (h0 : 0 ≤ l.start)
+theorem lexNegative_sat {n : Int} {l0 l : Lexer} (hn : l.len = n ∧ (l.mp : Int) ≤ n ∧ 0 ≤ l.tagStart ∧ l.tagStart ≤ n ∧ l.bad = 0) (h0 : 0 ≤ l.start)
     (h1 : l.start ≤ l0.pos) (h2 : l.pos ≤ n) (hadv : l0.pos < l.pos) (hn0 : l0.pos < n) :
     Sat (lexNegative l) (Post n .insideTag l0) := by
   unfold lexNegative
@@ -51,7 +51,7 @@ theorem isLetterOrUnderscore_nonneg {r : Int} (h : isLetterOrUnderscore r = true
   simp only [isLetterOrUnderscore, Bool.or_eq_true, Bool.and_eq_true, decide_eq_true_eq, beq_iff_eq] at h
   omega
 
-theorem lexSymbol_sat {n : Int} {l0 l : Lexer} (hn : l.len = n) (h0 : 0 ≤ l.start)
+theorem lexSymbol_sat {n : Int} {l0 l : Lexer} (hn : l.len = n ∧ (l.mp : Int) ≤ n ∧ 0 ≤ l.tagStart ∧ l.tagStart ≤ n ∧ l.bad = 0) (h0 : 0 ≤ l.start)
     (h1 : l.start ≤ l0.pos) (h2 : l.pos ≤ n) (hadv : l0.pos < l.pos) :
     Sat (lexSymbol l) (Post n .insideTag l0) := by
   unfold lexSymbol
@@ -63,12 +63,12 @@ theorem lexSymbol_sat {n : Int} {l0 l : Lexer} (hn : l.len = n) (h0 : 0 ≤ l.st
   apply sliceOf_sat (by lx) (by lx) (by lx)
   intro sym _
   split
-  · first | exact errorf_sat | exact errorfAt_sat
-  · exact emitInside_sat (by lx) (by lx) (by lx) (by lx) (by lx)
+  · first | exact errorf_sat (by lx) | exact errorfAt_sat (by lx)
+  · exact emitInside_sat (by lx) (by lx) (by lx) (by lx) (by lx) (by eok)
 
 /-- facts about the lexer handed to the later cases of lexInsideTag: `r` was read from `l0`;
     unless a case condition peeked (`r` = '/' or '='), `backup` returns to `l0.pos` -/
-theorem lexInsideTagRest_sat {n : Int} {l0 l : Lexer} {r : Int} (hn : l.len = n) (h0 : 0 ≤ l.start)
+theorem lexInsideTagRest_sat {n : Int} {l0 l : Lexer} {r : Int} (hn : l.len = n ∧ (l.mp : Int) ≤ n ∧ 0 ≤ l.tagStart ∧ l.tagStart ≤ n ∧ l.bad = 0) (h0 : 0 ≤ l.start)
     (h1 : l.start ≤ l0.pos) (h2 : l.pos ≤ n)
     (hr : (r = -1 ∧ l.pos = l0.pos) ∨ (0 ≤ r ∧ l0.pos < l.pos))
     (hb : r = 47 ∨ r = 61 ∨ l.pos - l.width = l0.pos) :
@@ -77,23 +77,23 @@ theorem lexInsideTagRest_sat {n : Int} {l0 l : Lexer} {r : Int} (hn : l.len = n)
   split
   · fin
   split
-  · exact emitInside_sat (by lx) (by lx) (by lx) (by lx) (by lx)
+  · exact emitInside_sat (by lx) (by lx) (by lx) (by lx) (by lx) (by eok)
   split
-  · first | exact errorf_sat | exact errorfAt_sat
+  · first | exact errorf_sat (by lx) | exact errorfAt_sat (by lx)
   split
-  · exact emitInside_sat (by lx) (by lx) (by lx) (by lx) (by lx)
+  · exact emitInside_sat (by lx) (by lx) (by lx) (by lx) (by lx) (by eok)
   split
   · rename_i hl
     have := isLetterOrUnderscore_nonneg hl
     fin
   split
-  · exact emitInside_sat (by lx) (by lx) (by lx) (by lx) (by lx)
+  · exact emitInside_sat (by lx) (by lx) (by lx) (by lx) (by lx) (by eok)
   split
   · fin
-  · first | exact errorf_sat | exact errorfAt_sat
+  · first | exact errorf_sat (by lx) | exact errorfAt_sat (by lx)
 
 set_option maxHeartbeats 1000000 in
-theorem lexInsideTagMid_sat {n : Int} {l0 l : Lexer} {r : Int} (hn : l.len = n) (h0 : 0 ≤ l.start)
+theorem lexInsideTagMid_sat {n : Int} {l0 l : Lexer} {r : Int} (hn : l.len = n ∧ (l.mp : Int) ≤ n ∧ 0 ≤ l.tagStart ∧ l.tagStart ≤ n ∧ l.bad = 0) (h0 : 0 ≤ l.start)
     (h1 : l.start ≤ l0.pos) (h2 : l.pos ≤ n)
     (hr : (r = -1 ∧ l.pos = l0.pos) ∨ (0 ≤ r ∧ l0.pos < l.pos ∧ (128 ≤ r ∨ l.pos = l0.pos + 1)))
     (hb : r = 47 ∨ l.pos - l.width = l0.pos) :
@@ -102,18 +102,18 @@ theorem lexInsideTagMid_sat {n : Int} {l0 l : Lexer} {r : Int} (hn : l.len = n) 
   split
   · fin
   split
-  · exact emitInside_sat (by lx) (by lx) (by lx) (by lx) (by lx)
+  · exact emitInside_sat (by lx) (by lx) (by lx) (by lx) (by lx) (by eok)
   split
-  · exact emitInside_sat (by lx) (by lx) (by lx) (by lx) (by lx)
+  · exact emitInside_sat (by lx) (by lx) (by lx) (by lx) (by lx) (by eok)
   split
   · nx r2 l2 hl2 hs2 hf2
     split
     · fin
     split
-    · exact emitInside_sat (by lx) (by lx) (by lx) (by lx) (by lx)
+    · exact emitInside_sat (by lx) (by lx) (by lx) (by lx) (by lx) (by eok)
     split
-    · exact emitInside_sat (by lx) (by lx) (by lx) (by lx) (by lx)
-    · exact emitInside_sat (by lx) (by lx) (by lx) (by lx) (by lx)
+    · exact emitInside_sat (by lx) (by lx) (by lx) (by lx) (by lx) (by eok)
+    · exact emitInside_sat (by lx) (by lx) (by lx) (by lx) (by lx) (by eok)
   split
   · exact lexNegative_sat (by lx) (by lx) (by lx) (by lx) (by lx) (by lx)
   split
@@ -121,7 +121,7 @@ theorem lexInsideTagMid_sat {n : Int} {l0 l : Lexer} {r : Int} (hn : l.len = n) 
   split
   · fin
   split
-  · exact emitInside_sat (by lx) (by lx) (by lx) (by lx) (by lx)
+  · exact emitInside_sat (by lx) (by lx) (by lx) (by lx) (by lx) (by eok)
   split
   · exact lexSymbol_sat (by lx) (by lx) (by lx) (by lx) (by lx)
   split
